@@ -513,3 +513,106 @@ TARGETS.append(
                     '(call_unit {_v} {_d})', 'opt:Exception:pmap')],
          stmt_patterns=[('add_peptide_anno(_m)', {'_m': 'pmap'}, 'peptide_anno', '(add_peptide_anno {_m} {cur})'),
                         ('denylist.update([str(x) for x in _m])', {'_m': 'seqs'}, 'denylist', '({cur} ++ {_m})')]))
+
+# ---------------------------------------------------------------------------------------------- C04 output hygiene
+# (14) svgraph/VariantPeptideTable.py VariantPeptideTable.is_valid and aa/VariantPeptidePool.py VariantPeptidePool.add_peptide
+#      (filter chain + acceptance / merge decision)                  vs PepTable.is_valid / PepTable.vpool_add
+#      Trusted: SeqUtils.molecular_weight(s, 'protein') < min_mw is the exact x10^4 comparison mass4 < lim_min_mw4 and
+#      raises ValueError (None) on a letter outside Biopython's table (Gen/Bio.v weights obligation); str(seq) in
+#      canonical_peptides is membership in the pool list; the pinned `if same_peptide: .. else: self.peptides.add(..)`
+#      block with get_equivalent is PepTable.vpool_merge (label appended to an equal record, else the record added).
+C04_PATS = [
+    ('cleavage_params.min_mw', {}, '(lim_min_mw4 lim)', 'mw4'),
+    ('cleavage_params.min_length', {}, '(lim_min_len lim)', 'Z'),
+    ('cleavage_params.max_length', {}, '(lim_max_len lim)', 'Z'),
+    ("SeqUtils.molecular_weight(_s, 'protein') < _m", {'_s': 'list Z', '_m': 'mw4'},
+     '(if negb (valid_letters wt {_s}) then None else Some (mass4 wt water {_s} <? {_m}))', 'opt:ValueError:bool'),
+    ('str(_s) in canonical_peptides', {'_s': 'list Z'}, '(mem_seq {_s} pool)', 'bool'),
+]
+C04_MERGE = ('if same_peptide:\n    same_peptide: Seq\n    new_label = peptide.description\n'
+             '    same_peptide.description += self.peptide_delimeter + new_label\n    same_peptide.id = same_peptide.description\n'
+             '    same_peptide.name = same_peptide.description\nelse:\n    self.peptides.add(peptide)')
+TARGETS += [
+    dict(out='Py_VariantPeptideTable', file='moPepGen/svgraph/VariantPeptideTable.py', cls='VariantPeptideTable',
+         func='is_valid', coq_name='py_table_is_valid', imports=['Model.Digest', 'Model.PepTable'],
+         args=[('wt', 'weight_table'), ('water', 'Z'), ('pool', 'list seq'), ('lim', 'limits'), ('p', 'list Z')],
+         types={'mw4': 'Z'},
+         params={'seq': ('p', 'list Z'), 'canonical_peptides': (None, 'opaque'), 'cleavage_params': (None, 'opaque')},
+         ret_ty='bool', res_ty='option bool', ok='(Some {})', stub='Some true',
+         errors={'ValueError': 'None'}, raises=[], patterns=C04_PATS),
+    dict(out='Py_VariantPeptidePool', file='moPepGen/aa/VariantPeptidePool.py', cls='VariantPeptidePool',
+         func='add_peptide', coq_name='py_pool_add_peptide',
+         imports=['Model.Rule', 'Model.Digest', 'Model.Header', 'Model.Filter', 'Model.PepTable'],
+         args=[('wt', 'weight_table'), ('water', 'Z'), ('pool', 'list seq'), ('lim', 'limits'), ('skip', 'bool'),
+               ('vp', 'vpool'), ('p', 'list Z'), ('label', 'list Z')],
+         types={'mw4': 'Z', 'vpool': 'vpool', 'vres': '(vpool * bool)'},
+         params={'peptide': (None, 'pepobj'), 'canonical_peptides': (None, 'opaque'), 'cleavage_params': (None, 'opaque'),
+                 'skip_checking': ('skip', 'bool')},
+         pre_env={'pool__': ('vp', 'vpool')},
+         ret_ty='bool', res_ty='option (vpool * bool)', ok='(Some ({pool__}, {}))', stub='None',
+         errors={'ValueError': 'None'}, raises=[],
+         ignore_stmts=[r'^same_peptide = get_equivalent\('],
+         ignore_may_store=['same_peptide'],
+         stmt_rewrites=[(C04_MERGE, 'pool__ = merge__(pool__)')],
+         patterns=C04_PATS + [('_x.seq', {'_x': 'pepobj'}, 'p', 'list Z'),
+                              ('merge__(_v)', {'_v': 'vpool'}, '(vpool_merge p label {_v})', 'vpool')]),
+]
+
+# ---------------------------------------------------------------------------------------------- C18 splitFasta
+# (15) aa/PeptidePoolSplitter.py PeptidePoolSplitter.split: the per-peptide database decision (`sources = ..` up to the
+#      `if len(sources) <= max_groups: .. else: ..`)                                         vs Split.db_key
+#      Observable: the key handed to add_peptide_to_database.  Trusted: len / str / issubset of a VariantSourceSet are
+#      Split.set_len / set_str / subset; get_additional_database_key(a) is str(a) + separator + 'additional' and
+#      get_remaining_database_key() is 'Remaining' (their f-strings are read by harness/translate/header_cfg.py).
+TARGETS.append(
+    dict(out='Py_PeptidePoolSplitter', file='moPepGen/aa/PeptidePoolSplitter.py', cls='PeptidePoolSplitter', func='split',
+         coq_name='py_db_key', imports=['Gen.HeaderCfg', 'Model.Header', 'Model.Split'],
+         args=[('c', 'scfg'), ('S', 'list str')],
+         types={'srcset': '(list str)', 'dbkey': 'str'},
+         params={'max_groups': ('(c_max_groups c)', 'Z'), 'additional_split': ('(c_additional c)', 'list srcset'),
+                 'tx2gene': (None, 'opaque'), 'coding_tx': (None, 'opaque')},
+         slice=('sources = peptide_infos[0].sources', 'if len(sources) <= max_groups:'),
+         slice_pre=['key__ = no_key__()'], slice_post=['return key__'],
+         ret_ty='dbkey', res_ty='str', ok='{}', stub='[0]', errors={}, raises=[],
+         patterns=[('no_key__()', {}, '[]', 'dbkey'),
+                   ('peptide_infos[0].sources', {}, 'S', 'srcset'),
+                   ('len(_s)', {'_s': 'srcset'}, '(set_len {_s})', 'Z'),
+                   ('str(_s)', {'_s': 'srcset'}, '(set_str (c_levels c) {_s})', 'dbkey'),
+                   ('_a.issubset(_s)', {'_a': 'srcset', '_s': 'srcset'}, '(subset {_a} {_s})', 'bool'),
+                   ('self.get_additional_database_key(_a)', {'_a': 'srcset'},
+                    '(set_str (c_levels c) {_a} ++ [cfg_key_sep] ++ s_additional)', 'dbkey'),
+                   ('self.get_remaining_database_key()', {}, 's_Remaining', 'dbkey')],
+         stmt_patterns=[('self.add_peptide_to_database(_k, peptide)', {'_k': 'dbkey'}, 'key__', '{_k}')]))
+
+# (16) parser/VEPParser.py VEPRecord.convert_to_variant_record: the arms after the boundary checks (deletion with /
+#      without an upstream base, strand flip of the allele, end- / start-inclusive single-position insertion, SNV,
+#      two-position insertion, substitution) and the SNV / INDEL / MNV decision             vs Vep.convert_core true
+#      The slice starts at `if self.allele == '-':`; the locals computed before it (gene sequence, normalised gene
+#      interval, transcript start, strand) are parameters.  Trusted: str(seq.seq[a:b]) / str(seq.seq[i]) are
+#      Vep.pyslice / Vep.pyindex on the gene sequence; Seq(s).reverse_complement() is Vep.revcomp; '-' is the model's
+#      None allele; FeatureLocation + VariantRecord.__init__ reject end < start and len(location) != len(ref)
+#      (as Vep.finish assumes); 'SNV' / 'INDEL' / 'MNV' are the type codes 0 / 1 / 2.
+TARGETS.append(
+    dict(out='Py_VEPParser', file='moPepGen/parser/VEPParser.py', cls='VEPRecord', func='convert_to_variant_record',
+         coq_name='py_vep_convert_core', imports=['Model.Vep'],
+         args=[('strand', 'Z'), ('sq', 'seq'), ('as1', 'Z'), ('ae2', 'Z'), ('ts', 'Z'), ('allele0', 'option seq')],
+         types={'resvrec': '(res vrec)'},
+         params={'anno': (None, 'opaque'), 'genome': (None, 'opaque')},
+         pre_env={'alt_start': ('as1', 'Z'), 'alt_end': ('ae2', 'Z'), 'tx_start_genetic': ('ts', 'Z'), 'strand': ('strand', 'Z')},
+         slice=("if self.allele == '-':", 'if len(ref) == len(alt) == 1:'),
+         slice_pre=[], slice_post=['return vrec__(alt_start, alt_end, ref, alt, _type)'],
+         ret_ty='resvrec', res_ty='res vrec', ok='{}', stub='ErrStart',
+         errors={'IndexError': 'ErrIndex', 'ValueError': 'ErrValue', 'UnboundLocalError': 'ErrStop'},
+         raises=[('ValueError', 'any', None, 'ErrValue')],
+         patterns=[("self.allele == '-'", {}, '(match allele0 with None => true | Some _ => false end)', 'bool'),
+                   ('self.allele', {}, 'allele0', 'opt:ValueError:list Z'),
+                   ('str(Seq(_a).reverse_complement())', {'_a': 'list Z'}, '(revcomp {_a})', 'list Z'),
+                   ('str(seq.seq[_a:_b])', {'_a': 'Z', '_b': 'Z'}, '(pyslice sq {_a} {_b})', 'list Z'),
+                   ('str(seq.seq[_a])', {'_a': 'Z'}, '(option_map (fun x__ => [x__]) (pyindex sq {_a}))', 'opt:IndexError:list Z'),
+                   ('str(_r)', {'_r': 'list Z'}, '{_r}', 'list Z'),
+                   ('_s[:-1]', {'_s': 'list Z'}, '(removelast {_s})', 'list Z'),
+                   ('_r == _c', {'_r': 'list Z', '_c': 'Z'}, '(match {_r} with [x__] => x__ =? {_c} | _ => false end)', 'bool'),
+                   ("'SNV'", {}, '0', 'Z'), ("'INDEL'", {}, '1', 'Z'), ("'MNV'", {}, '2', 'Z'),
+                   ('vrec__(_s, _e, _r, _a, _t)', {'_s': 'Z', '_e': 'Z', '_r': 'list Z', '_a': 'list Z', '_t': 'Z'},
+                    '(if {_e} <? {_s} then ErrValue else if negb ({_e} - {_s} =? zlen {_r}) then ErrValue '
+                    'else Ok (mkVrec {_s} {_e} {_r} {_a} {_t}))', 'resvrec')]))
